@@ -522,7 +522,14 @@ fn run_rustfmt(
 
     Ok(status
         .iter()
-        .filter_map(|s| if s.success() { None } else { s.code() })
+        .filter_map(|s| {
+            if s.success() {
+                None
+            } else {
+                // A rustfmt killed by a signal has no exit code; it still failed.
+                Some(s.code().unwrap_or(FAILURE))
+            }
+        })
         .next()
         .unwrap_or(SUCCESS))
 }
